@@ -97,6 +97,9 @@ structure RunAcc where
   verdict : String := "ok"
   firstSeen : List Nat := []          -- positions in order of first occurrence
   firstRes : List (Nat × String) := []
+  fence : Nat := 0                    -- applied index of the newest installed snapshot payload
+  snap : Bool := false                -- a snapshot was installed in this run
+  inexact : Bool := false             -- ... whose payload was BEHIND its metadata index (entries are lost by design)
 
 def setV (a : RunAcc) (v : String) : RunAcc := if a.verdict == "ok" then { a with verdict := v } else a
 
@@ -113,6 +116,10 @@ def doBatch (acc : RunAcc) (a b : Nat) (implTok : String) : RunAcc :=
   | some (implRes, implStRaw) =>
     let implSt := (implStRaw.splitOn "!").head!
     let acc := if implStRaw.endsWith "!final" then setV acc "viol:final-state-is-not-the-published-state" else acc
+    -- entries covered by an installed snapshot payload must be skipped
+    let acc := (positions.zip implRes).foldl (fun acc (p, res) =>
+      if (acc.st.log[p]!).1 ≤ acc.fence && acc.fence ≠ 0 && !res.startsWith "N:already_applied:" then
+        setV acc "viol:entry-covered-by-installed-snapshot-applied-again" else acc) acc
     let before := acc.sm.published
     -- learn from a one-entry batch whose mutate call the oracle has not seen
     let try1 := applyBatch loopFacts (oracleHandler acc.st.oracle) (fun _ => true) acc.sm entries
@@ -134,9 +141,9 @@ def doBatch (acc : RunAcc) (a b : Nat) (implTok : String) : RunAcc :=
               (if r' == before.rev && ld' == before.body then acc else setV acc "viol:noop-or-reject-changed-the-state")
             else setV acc "viol:malformed-result"
           -- a second, batched run must not call a handler on a state the sequential run never saw
-          if acc.st.refFinal.isSome && strictLog acc.st.log then setV acc "viol:batch-diverges-from-sequential" else acc
+          if acc.st.refFinal.isSome && strictLog acc.st.log && !acc.inexact then setV acc "viol:batch-diverges-from-sequential" else acc
         | _, _ => setV acc "viol:malformed-result"
-      else setV acc "viol:batch-diverges-from-sequential"
+      else if acc.inexact || acc.st.refFinal.isNone then acc else setV acc "viol:batch-diverges-from-sequential"
     let r := applyBatch loopFacts (oracleHandler acc.st.oracle) (fun _ => true) acc.sm entries
     let stillMissed := r.2.any (fun x => x.outcome == .rejected missReason)
     if stillMissed then
@@ -165,6 +172,38 @@ def doBatch (acc : RunAcc) (a b : Nat) (implTok : String) : RunAcc :=
         else { acc with firstSeen := acc.firstSeen ++ [p], firstRes := acc.firstRes ++ [(p, res)] }) acc
       { acc with sm := r.1, out := acc.out ++ [tok] }
 
+/-- the state the one-at-a-time run reaches after the first `k` entries, from the oracle -/
+def seqState (st : C18St) (empty : State String) (k : Nat) : Option (State String) :=
+  (List.range k).foldl (fun (acc : Option (SM String)) p =>
+    match acc with
+    | none => none
+    | some sm =>
+      let r := applyBatch loopFacts (oracleHandler st.oracle) (fun _ => true) sm [⟨(st.log[p]!).1, p⟩]
+      if r.2.any (fun x => x.outcome == .rejected missReason) then none else some r.1)
+    (some { published := empty, file := none }) |>.map (·.published)
+
+/-- snapshot token `s<k>@<m>` -/
+def doSnapshot (acc : RunAcc) (empty : State String) (k m : Nat) (implTok : String) : RunAcc :=
+  let metaIdx := if m = 0 then 0 else (acc.st.log[m - 1]!).1
+  match seqState acc.st empty k with
+  | none =>
+    match (if implTok.startsWith "S=" then parseSt (implTok.drop 2).toString else none) with
+    | some (ld, rv, ap, _, _) =>
+      let s : State String := ⟨rv, ap, ld⟩
+      { acc with sm := { published := s, file := if rv ≠ 0 then some s else acc.sm.file }, out := acc.out ++ ["S?"], snap := true, inexact := true }
+    | none => { acc with out := acc.out ++ ["S?"], snap := true, inexact := true }
+  | some payload =>
+    if payload.rev = 0 then { acc with out := acc.out ++ ["S=nosnap"], snap := true, inexact := true }
+    else
+      let sm' := restoreSnapshot restoreFacts acc.sm payload metaIdx
+      let acc := if implTok.startsWith "ERR" then setV acc "viol:apply-error" else acc
+      -- judge: the installed state must not claim less than its payload contains
+      let acc := match (if implTok.startsWith "S=" then parseSt (implTok.drop 2).toString else none) with
+        | some (_, _, ap, _, _) => if ap < payload.applied then setV acc "viol:installed-snapshot-applied-index-below-its-payload" else acc
+        | none => acc
+      { acc with sm := sm', out := acc.out ++ ["S=" ++ stStr sm'.published sm'.file.isSome], fence := max acc.fence payload.applied,
+                 snap := true, inexact := acc.inexact || payload.applied < metaIdx }
+
 def c18Step (st : C18St) (op impl : String) : C18St × String × String :=
   match fields op with
   | ["e", idx, term, _hex] =>
@@ -175,13 +214,23 @@ def c18Step (st : C18St) (op impl : String) : C18St × String × String :=
     | _, _ => (st, "bad-op", "ok")
   | "run" :: toks =>
     if toks.isEmpty then (st, "bad-op", "ok") else
-    let parsed := toks.map fun t => if t == "r" then some none else (parseRange t).map some
+    let parsed : List (Option (Option (Nat × Nat × Bool))) := toks.map fun t =>
+      if t == "r" then some none
+      else if t.startsWith "s" then
+        match (t.drop 1).toString.splitOn "@" with
+        | [k, m] =>
+          match k.toNat?, m.toNat? with
+          | some k, some m => some (some (k, m, true))
+          | _, _ => none
+        | _ => none
+      else (parseRange t).map fun (a, b) => some (a, b, false)
     let n := st.log.size
     let wellFormed := parsed.all fun p =>
       match p with
       | none => false
       | some none => true
-      | some (some (a, b)) => b ≤ n && ((List.range (b - a)).all fun k => (st.log[a + k]!).2)
+      | some (some (a, b, false)) => b ≤ n && ((List.range (b - a)).all fun k => (st.log[a + k]!).2)
+      | some (some (k, m, true)) => k ≤ n && m ≤ n && ((List.range k).all fun i => (st.log[i]!).2)
     if !wellFormed then (st, "bad-op", "ok") else
     let itoks := fields impl
     match itoks with
@@ -200,7 +249,8 @@ def c18Step (st : C18St) (op impl : String) : C18St × String × String :=
         else
         let acc := (parsed.zip irest).foldl (fun acc (p, itok) =>
           match p with
-          | some (some (a, b)) => doBatch acc a b itok
+          | some (some (a, b, false)) => doBatch acc a b itok
+          | some (some (k, m, true)) => doSnapshot acc empty k m itok
           | _ =>
             let sm' := restart empty acc.sm
             { acc with sm := sm', out := acc.out ++ ["R=" ++ stStr sm'.published sm'.file.isSome] }) acc0
@@ -211,7 +261,7 @@ def c18Step (st : C18St) (op impl : String) : C18St × String × String :=
           let stpart := (t.splitOn "=").getLast!
           (parseSt ((stpart.splitOn "!").head!)).map fun (ld, r, a, _, _) => s!"{ld}/{r}/{a}")
         let acc :=
-          if !(contiguous && strict) then acc else
+          if !(contiguous && strict) || acc.snap then acc else
           -- results of first occurrences against the reference
           let bad := acc.firstRes.any fun (p, res) =>
             match acc.st.refRes.lookup p with
@@ -226,7 +276,10 @@ def c18Step (st : C18St) (op impl : String) : C18St × String × String :=
             | some rf, some f => if rf == f then acc else setV acc "viol:batch-partition-changes-the-state"
             | _, none => setV acc "viol:apply-error"
           else acc
-        (acc.st, " ".intercalate acc.out, acc.verdict)
+        -- after a snapshot whose payload is BEHIND its metadata index the log's entries in between are
+        -- lost by design: later batches run on states the one-at-a-time run never saw — not predicted
+        let line := if (acc.inexact || acc.st.refFinal.isNone) && (acc.out.contains "B?" || acc.out.contains "S?") then "-" else " ".intercalate acc.out
+        (acc.st, line, acc.verdict)
   | ["contract"] =>
     -- the handlers' contract (`WK.C18.MutateContract`), judged per command on the real handlers:
     -- token = kind:outcome:reason:(kept|CHANGED|-):(indep|DEP)
